@@ -76,8 +76,33 @@ enum Te{idx} {{ TE{idx}_ZERO = 0; TE{idx}_ONE = 1; TE{idx}_MK = {base + 2}; }}
 """
 
 
-def refs_proto(pkg: str, idx: int, targets, wkt: bool) -> str:
-    """Message Src<idx> + service referring to every kind of every target (pkg, tidx)."""
+def alias_names(src: str, dst: str):
+    """Field names that coincide with the alias a module of package `src` may import package `dst` under
+    (descendants and, from the root, any package: the relative path joined by '_', and its first component)."""
+    s = src.split(".") if src else []
+    t = dst.split(".") if dst else []
+    if not t or t[: len(s)] != s or len(t) == len(s):
+        return []
+    rel = t[len(s):]
+    return sorted({rel[0], "_".join(rel), rel[-1]})
+
+
+def refs_proto(pkg: str, idx: int, targets, wkt: bool, sites: str = "all") -> str:
+    """Message Src<idx> + service referring to every kind of every target (pkg, tidx).
+
+    sites="rpc_in_only" / "rpc_out_only": the ONLY reference to the target package is an rpc input / output type;
+    sites="alias_named_fields": additionally fields whose name is the import alias of the package they refer to."""
+    if sites in ("rpc_in_only", "rpc_out_only"):
+        head = 'syntax = "proto3";\n' + (f"package {pkg};\n" if pkg else "")
+        imports = sorted({f'import "{fname(tp)}_defs.proto";\n' for tp, _ in targets})
+        body = f"message Src{idx} {{\n  int32 mk{20100 + idx * 10 + 5} = {20100 + idx * 10 + 5};\n}}\n"
+        rpcs = ""
+        me = "." + (pkg + "." if pkg else "") + f"Src{idx}"
+        for tp, ti in targets:
+            t = "." + (tp + "." if tp else "") + f"Tm{ti}"
+            a, b = (t, me) if sites == "rpc_in_only" else (me, t)
+            rpcs += f"  rpc Only{ti}A ({a}) returns ({b});\n  rpc Only{ti}B (stream {a}) returns (stream {b});\n"
+        return head + "".join(imports) + body + f"service Svc{idx} {{\n{rpcs}}}\n"
     head = 'syntax = "proto3";\n' + (f"package {pkg};\n" if pkg else "")
     imports = sorted({f'import "{fname(tp)}_defs.proto";\n' for tp, _ in targets})
     if wkt:
@@ -96,6 +121,9 @@ def refs_proto(pkg: str, idx: int, targets, wkt: bool) -> str:
             body += f"  repeated {t} r_{ti}_{k} = {n};\n"; n += 1
             body += f"  map<string, {t}> m_{ti}_{k} = {n};\n"; n += 1
             oneof += f"    {t} o_{ti}_{k} = {n};\n"; n += 1
+        if sites == "alias_named_fields":
+            for an in alias_names(pkg, tp):
+                body += f"  {kinds['msg']} {an} = {n};\n"; n += 1
         rpcs += f"  rpc Call{ti}A ({kinds['msg']}) returns ({kinds['nested']});\n"
         rpcs += f"  rpc Call{ti}B (stream {kinds['nested']}) returns (stream {kinds['msg']});\n"
     if wkt:
@@ -109,7 +137,7 @@ def refs_proto(pkg: str, idx: int, targets, wkt: bool) -> str:
     return head + "".join(imports) + body
 
 
-def validate(c: gen.Compiled, src_list, wkt):
+def validate(c: gen.Compiled, src_list, wkt, sites: str = "all"):
     """src_list: [(src_pkg, src_idx, [(tgt_pkg, tgt_idx)...])] -> [(clause, where, detail)]"""
     import betterproto
 
@@ -140,14 +168,50 @@ def validate(c: gen.Compiled, src_list, wkt):
             out.append(("source_class_missing", "-", f"Src{si} of package {sp!r}"))
             continue
         try:
-            hints = typing.get_type_hints(Src, vars(sys.modules[Src.__module__]))
+            hints = typing.get_type_hints(Src, vars(sys.modules[Src.__module__]), {})
         except Exception as e:  # noqa: BLE001
             out.append(("type_hints_unresolvable", type(e).__name__, f"Src{si} ({sp!r}): {e}"[:300]))
+            continue
+        if sites in ("rpc_in_only", "rpc_out_only"):
+            mod = sys.modules[Src.__module__]
+            Base = getattr(mod, f"Svc{si}Base", None)
+            try:
+                mapping = Base().__mapping__()
+            except Exception as e:  # noqa: BLE001
+                out.append(("service_mapping_raises", f"{sites}|{type(e).__name__}", f"{sp!r}: {e}"[:300]))
+                continue
+            pre = "/" + (sp + "." if sp else "") + f"Svc{si}/"
+            for tp, ti in tgts:
+                tcls = by_marker.get(20100 + ti * 10)
+                for route in (f"Only{ti}A", f"Only{ti}B"):
+                    h = mapping.get(pre + route)
+                    want_rq, want_rp = (tcls, Src) if sites == "rpc_in_only" else (Src, tcls)
+                    if h is None or h.request_type is not want_rq or h.reply_type is not want_rp:
+                        out.append(("rpc_type_resolves_to_wrong_class", f"{sites}|{relation(sp, tp)}", f"{pre + route}: {h!r}"))
+            # the stub must be constructible and its methods must exist
+            Stub = getattr(mod, f"Svc{si}Stub", None)
+            if Stub is None:
+                out.append(("service_stub_missing", sites, f"Svc{si}Stub in {sp!r}"))
             continue
         for tp, ti in tgts:
             rel = relation(sp, tp)
             base = 20100 + ti * 10
             want = {"msg": by_marker.get(base), "nested": by_marker.get(base + 1), "enum": by_marker.get(base + 2), "nenum": by_marker.get(base + 3)}
+            if sites == "alias_named_fields" and want["msg"] is not None:
+                for an in alias_names(sp, tp):
+                    got = gen._hint_shape(hints.get(an))[1][-1]
+                    if got is not want["msg"]:
+                        out.append(("reference_resolves_to_wrong_class", f"alias_named_field|msg|{rel}", f"{sp!r} -> {tp!r}: field {an!r} resolves to {got!r}, want {want['msg']!r}"))
+                    try:
+                        val = want["msg"](v=9)
+                        m2 = Src().parse(bytes(Src(**{an: val})))
+                        if getattr(m2, an) != val or type(getattr(m2, an)) is not want["msg"]:
+                            out.append(("value_through_reference_not_preserved", f"alias_named_field|{rel}", f"{sp!r} -> {tp!r}: field {an!r}: {getattr(m2, an)!r}"))
+                        d = m2.to_dict()
+                        if Src().from_dict(d) != m2:
+                            out.append(("value_through_reference_not_preserved", f"alias_named_field|json|{rel}", f"{sp!r} -> {tp!r}: field {an!r}: {d!r}"))
+                    except Exception as e:  # noqa: BLE001
+                        out.append(("round_trip_through_reference_raises", f"alias_named_field|{rel}|{type(e).__name__}", f"{sp!r} -> {tp!r}: field {an!r}: {e}"[:300]))
             for k, cls in want.items():
                 if cls is None:
                     out.append(("target_class_missing", k, f"{tp!r} kind {k}"))
@@ -234,22 +298,33 @@ def targets(ctx):
             if not ctx.thorough and (i + ctx.seed) % 4 != 0:
                 continue
             yield {"src": s, "dst": t}
+        # the target package is referred to by nothing but an rpc input / output type; fields named like the import alias
+        k = {"rpc_in_only": 0, "rpc_out_only": 0, "alias_named_fields": 0}
+        for s, t in pairs:
+            if s == t:
+                continue
+            for sites in ("rpc_in_only", "rpc_out_only") + (("alias_named_fields",) if alias_names(s, t) else ()):
+                k[sites] += 1
+                if ctx.thorough or (k[sites] + ctx.seed) % (3 if sites == "alias_named_fields" else 8) == 0:
+                    yield {"src": s, "dst": t, "sites": sites}
 
     def pair_ev(case):
         s, t = case["src"], case["dst"]
+        sites = case.get("sites", "all")
         files = {}
         files[f"{fname(t)}_defs.proto"] = defs_proto(t, 1)
-        if s != t:
+        if s != t and sites not in ("rpc_in_only", "rpc_out_only"):
             files[f"{fname(s)}_defs.proto"] = defs_proto(s, 0)
-        files[f"{fname(s)}_refs.proto"] = refs_proto(s, 0, [(t, 1)], wkt=False)
+        files[f"{fname(s)}_refs.proto"] = refs_proto(s, 0, [(t, 1)], wkt=False, sites=sites)
         c = gen.compile_files(files, tag="c13_")
         try:
             if c.protoc_rejected:
                 raise RuntimeError(f"protoc rejects a C13 pair schema: {c.stderr[:300]}")
-            found = validate(c, [(s, 0, [(t, 1)])], False)
+            found = validate(c, [(s, 0, [(t, 1)])], False, sites)
             rel = relation(s, t)
-            fails = [Failure(cl, f"pair|{cl}|{where}|{rel}" if rel not in where else f"pair|{cl}|{where}", f"{s!r} -> {t!r}: {d}") for cl, where, d in found]
-            return Eval(fails, nontrivial=s != t, labels=[f"rel:{rel}"])
+            tag = "pair" if sites == "all" else f"pair:{sites}"
+            fails = [Failure(cl, f"{tag}|{cl}|{where}|{rel}" if rel not in where else f"{tag}|{cl}|{where}", f"{s!r} -> {t!r} ({sites}): {d}") for cl, where, d in found]
+            return Eval(fails, nontrivial=s != t, labels=[f"rel:{rel}", f"sites:{sites}"])
         finally:
             c.cleanup()
 
